@@ -124,7 +124,7 @@ func runC06(c *Ctx) {
 	if c.Thorough() {
 		depth = 4
 	}
-	c.Rule = fmt.Sprintf("all histories of depth <= %d over an alphabet of Add/Remove/Update/RemoveFiltered and batch/Ex variants on three rules, for p (arity 3), p2 (arity 2), g, g with rules that carry a column beyond the definition (filters reach into it) and a definition with a priority field (insertion by priority shifts the index map), through the Enforcer API, observing result, GetPolicy order and the exported PolicyMap after every call and HasPolicy/GetFilteredPolicy probes at the end (exhaustive); plus seeded random histories to length 60 over a universe with separator-like fields (',', '$$', NUL, blanks, empty), over-long rules, update chains; after loads whose sorts (subject hierarchy, explicit priority) re-order the rules: index vs list, removal by value of every listed rule (implementation only); every exported SyncedEnforcer method vs the Enforcer method it wraps on twin enforcers (results, rules, store, notifications, decisions; implementation only); every enumerated history ends with the listing handed straight back to the batch removal (RemovePolicies(GetPolicy())); non-trivial = at least one call that changed the store and one that reported false; distinct = whole history", depth)
+	c.Rule = fmt.Sprintf("all histories of depth <= %d over an alphabet of Add/Remove/Update/RemoveFiltered and batch/Ex variants on three rules, for p (arity 3), p2 (arity 2), g, g with rules that carry a column beyond the definition (filters reach into it) and a definition with a priority field (insertion by priority shifts the index map), through the Enforcer API, observing result, GetPolicy order and the exported PolicyMap after every call and HasPolicy/GetFilteredPolicy probes at the end (exhaustive); plus seeded random histories of 10 to 59 calls over a universe with separator-like fields (',', '$$', NUL, blanks, empty), over-long rules, update chains; after loads whose sorts (subject hierarchy, explicit priority) re-order the rules: index vs list, removal by value of every listed rule (implementation only); every exported SyncedEnforcer method (except the lock, auto-load, SetWatcher and LoadModel wrappers) vs the Enforcer method it wraps on twin enforcers (results, rules, store, notifications, decisions; implementation only); every enumerated history ends with the listing handed straight back to the batch removal (RemovePolicies(GetPolicy())); non-trivial = at least one call that changed the store and one that reported false; distinct = whole history", depth)
 	targets := []storeTarget{{"p", "p", 3, false, 0}, {"p", "p2", 2, false, 0}, {"g", "g", 2, false, 0}, {"p", "p3", 3, true, 0}, {"g", "g", 2, false, 1}}
 	caseNo := 0
 	for _, t := range targets {
